@@ -354,6 +354,9 @@ func TestVF_C17_Codec(t *testing.T) {
 		}
 		return
 	}
+	if sh, _ := vfshared.Shard(); sh == 0 {
+		c17DeepCell(t, st, part)
+	}
 	// large messages (the proxy accepts up to 128 MiB): a repairable legacy encoding followed by 5 MiB in a field the
 	// schema does not know (dropped by both decoders) - the repair must not depend on the size of the message
 	if sh, _ := vfshared.Shard(); sh == 0 {
